@@ -596,6 +596,26 @@ impl LongTermCredentialClient {
         self.validator
             .signal_protection_violated_on_timeout(transaction_id)
     }
+
+    #[cfg(feature = "verif")]
+    pub(crate) fn verif_state(&self) -> (String, Vec<TransactionId>) {
+        let params = match &self.params {
+            Some(p) => format!(
+                "realm={:?} nonce={:?} algorithms={:?} algorithm={:?} integrity={:?} userhash={}",
+                p.realm.as_str(),
+                p.nonce.as_str(),
+                p.password_algorithms,
+                p.password_algorithm,
+                p.integrity,
+                p.user_hash.is_some()
+            ),
+            None => String::from("none"),
+        };
+        (
+            format!("long-term state={:?} params=[{}]", self.state, params),
+            self.validator.verif_violated(),
+        )
+    }
 }
 
 #[derive(Debug, Default)]
